@@ -24,7 +24,7 @@ RULE = ('cases = conversation (echo, multi-fragment store, pipelined, release by
         'every offset with one seeded ending; thorough: all three) + kill requested at every '
         'quiescent point + provider stalls; non-trivial = cut strictly inside the conversation; '
         'distinct = distinct (conversation, offset, ending, kill point)'
-        '; resets right behind complete PDUs; association-level endings on real AEs under silent peers, also while other associations come and go (ARTIM, not the application time-out, must end the waiting)')
+        '; resets right behind complete PDUs; association-level endings on real AEs under silent peers, also while other associations come and go (ARTIM, not the application time-out, must end the waiting); kill_busy: kill() right after a step has been handed to the provider')
 ASSUMPTIONS = ['silence only has to end the provider where ARTIM is armed (Sta2, Sta13)',
                'bound = ARTIM (10 s) + 1 s of virtual time after the last environment action',
                'kill() = DULServiceProvider.kill(); Association.kill is covered in the P2 part']
@@ -82,6 +82,12 @@ def cases(tier, seed):
         nsteps = len(corp[name]['steps'])
         for k in range(nsteps + 1):
             yield dict(convo=name, cut=None, ending=None, kill=k, seed=seed)
+        # ... and the stop request while the provider is busy: step k has just been handed to it
+        # (peer bytes unread, user primitive queued) when kill() is called from another thread
+        for k in range(nsteps):
+            for j in range(2):
+                yield dict(convo=name, cut=None, ending=None, kill=k, kill_busy=True,
+                           seed=seed * 7 + j)
     # a long pipelined turn to a user that does not consume: cuts only behind every 8th PDU,
     # plus a stop request after every step
     name = 'A18_flood_deaf_user_aborts'
@@ -153,6 +159,7 @@ def run_case(case):
         user_ended = False
         associated = False
         killed_at = None
+        busy_killer = None
         steps = c['steps']
         stall_at = None
         if case.get('stall'):
@@ -160,6 +167,17 @@ def run_case(case):
         for i, st in enumerate(steps):
             if case['kill'] is not None and case['kill'] == i:
                 killed_at = i
+                if case.get('kill_busy'):
+                    if st[0] in ('peer', 'peer+fin') and rig.prov_sock is not None:
+                        for pdu in st[1]:
+                            rig.peer_bytes(pdu)
+                    elif st[0] == 'user':
+                        convo.user_action(rig, st[1])
+                    brnd = random.Random('c13kb/%s' % case['seed'])
+                    for _ in range(brnd.choice([0, 0, 1, 2, 3, 5, 8])):
+                        if not rig.sim.step(until=rig.sim.now + 0.2):
+                            break
+                    busy_killer = rig.sim.spawn(rig.provider.kill, name='killer', role='user')
                 break
             if stall_at == i:
                 rig.sim.stall(rig.task, case['stall'])
@@ -286,8 +304,8 @@ def run_case(case):
                     v('user-not-told ending=%s from=%s' % (ending, state_at_cut),
                       'indications %r' % [describe_indication(x) for x in user.seen])
         # a request to stop the provider always completes
-        if not rig.loop_dead():
-            killer = rig.sim.spawn(rig.provider.kill, name='killer', role='user')
+        if not rig.loop_dead() or busy_killer is not None:
+            killer = busy_killer or rig.sim.spawn(rig.provider.kill, name='killer', role='user')
             rig.sim.run_for(2.0, pred=lambda: killer.done)
             if not killer.done:
                 v('kill-does-not-return at=%s' % rig.state(), 'provider blocked at %s' % rig.task.kind)
